@@ -102,7 +102,7 @@ def audit(prop: str, timeout: int = 900) -> dict:
 
 # ------------------------------------------------------------- generated model (translator) gate
 # properties whose theorem files contain `..._code_...` theorems about BBGen (the translation of the Python sources)
-GEN_PROPS = {"C01", "C02", "C03", "C04", "C05", "C06", "C07", "C08", "C10", "C11", "C12", "C14", "C15", "C16", "C17", "C20"}
+GEN_PROPS = {"C01", "C02", "C03", "C04", "C05", "C06", "C07", "C08", "C10", "C11", "C12", "C14", "C15", "C16", "C17", "C18", "C20"}
 
 
 def _lean_env() -> dict:
